@@ -78,6 +78,21 @@ def run(ctx):
         else:
             G = nds.Gradient(lambda t, c=1.0, d=0.0: c * (np.dot(g, np.ravel(t)) + np.sum(np.ravel(t) ** 2)) + d * np.sum(np.ravel(t)), method=method if not boxed else 'central')(x.reshape(shp), c=3.0, d=0.0)
         ctx.count(1, ('grad', n == 1))
+        # the same object called again WITHOUT the extra arguments: f then runs with its own defaults (c = 1), nothing remembered from the first call
+        fobj = lambda t, c=1.0, d=0.0: c * (np.dot(g, np.ravel(t)) + np.sum(np.ravel(t) ** 2)) + d * np.sum(np.ravel(t))     # noqa
+        for cname in ('Gradient', 'Jacobian'):
+            ob = getattr(nds, cname)(fobj, method=method if not boxed else 'central')
+            first = (lambda: ob(x, 3.0, 1.0)) if k % 2 else (lambda: ob(x, c=3.0, d=1.0))
+            try:
+                first()
+                again = np.ravel(ob(x))
+            except Exception as ex:   # noqa
+                ctx.violation('reuse-raises:%s' % cname, 'nd_scipy.%s object called with extra arguments and then without raises %r' % (cname, ex), desc)
+                continue
+            ctx.count(1, ('reuse-without-extras', cname))
+            if not np.allclose(again, g + 2 * x, rtol=1e-5, atol=1e-6):
+                ctx.violation('stale-arguments:%s' % cname, 'nd_scipy.%s(f) called as obj(x, c=3.0, d=1.0) and then as obj(x): the second call returns %r, the gradient of f with its default arguments is %r' % (
+                    cname, again.tolist(), (g + 2 * x).tolist()), dict(desc, first_call='obj(x, 3.0, 1.0)' if k % 2 else 'obj(x, c=3.0, d=1.0)', second_call='obj(x)'))
         want_shape = () if n == 1 else (n,)
         if np.shape(G) != want_shape:
             ctx.violation('gradient-shape', 'nd_scipy.Gradient for x of shape %r returns shape %r, expected %r' % (shp, np.shape(G), want_shape), desc)
